@@ -29,12 +29,14 @@ CONTENT = {
     "c4": "/* legacy section\n-- end of legacy section */\nCREATE TABLE keep_me (id int, note varchar(10)); -- trailing\n-- whole line\n# hash line\nCREATE TABLE second (x int);\n",
     # characters str.splitlines() breaks at but the parser treats as ordinary text (form feed, vertical tab, FS/GS/RS, NEL, U+2028/9)
     "c5": "CREATE TABLE p1 (a int, note varchar(10) COMMENT 'a\x0cb\x0bc');\x0c\nCREATE TABLE p2 (x int); -- c\u2028d \x85 e\nCREATE TABLE p3 (y int DEFAULT 1);\x1c\n-- \u2029 \x1d\x1e\nCREATE TABLE p4 (z int);\n",
+    # statements the grammar does not know between supported ones: skipped by the API (default settings) and therefore by the command line, -v or not
+    "c6": "CREATE TABLE u1 (a int);\nCREATE TRIGGER trg1 AFTER INSERT ON u1 FOR EACH ROW EXECUTE PROCEDURE f1();\nMERGE INTO u1 USING u2 ON (u1.a = u2.a) WHEN MATCHED THEN UPDATE SET a = 1;\nCREATE TABLE u2 (b int);\n",
     "c3": "CREATE TABLE \"T\" (\"Id\" int, note varchar(10) COMMENT 'café да') STORED AS PARQUET;\n",
 }
 FILES = [("a.sql", "c1"), ("m.b.c.sql", "c2"), ("noext", "c1"), ("x.ddl", "c4"), ("y.hql", "c3"), ("z.bql", "c1"), ("w.txt", "c2"), ("k.json", "c1"),
          ("v.1.ddl", "c3"), ("my tables.sql", "c1"), ("a+b(1)@x.ddl", "c5"), ("[q] 'r'.sql", "c2"),
-         ("a.txt", "c4")]      # same stem as a.sql, not accepted by directory mode: single-file dumps overwrite a_schema.json with a result of another length
-ENCODINGS = {"c5": ["utf-8", "utf-16"], "c4": ["utf-8", "utf-16", "latin-1"], "c1": ["utf-8", "utf-16", "latin-1", "cp1251"], "c2": ["utf-8", "utf-16", "ascii"], "c3": ["utf-8", "utf-16", "utf-8-sig"]}
+         ("a.txt", "c4"), ("unsupported_inside.sql", "c6")]      # same stem as a.sql, not accepted by directory mode: single-file dumps overwrite a_schema.json with a result of another length
+ENCODINGS = {"c6": ["utf-8", "utf-16"], "c5": ["utf-8", "utf-16"], "c4": ["utf-8", "utf-16", "latin-1"], "c1": ["utf-8", "utf-16", "latin-1", "cp1251"], "c2": ["utf-8", "utf-16", "ascii"], "c3": ["utf-8", "utf-16", "utf-8-sig"]}
 
 
 def frec(name, content):
@@ -82,6 +84,8 @@ def _replay(task):
     from simple_ddl_parser import cli, parse_from_file
     rnd = random.Random(f"c19-{seed}-{len(beh['hist'])}")
     settings, mode = SETTINGS[seed % len(SETTINGS)]
+    if settings.get("silent") is False and any(op.get("f") == "unsupported_inside.sql" for op in beh["hist"]):
+        settings = {}      # (strict settings on a text with unsupported statements raise, by design: the disk model has no raising calls)
     root = tempfile.mkdtemp(prefix="verif_c19_")
     old = os.getcwd()
     probs = []
@@ -99,8 +103,13 @@ def _replay(task):
                 f.write(CONTENT[cid])
         cid_of = dict(files)
 
-        def api(cid, st, m):
-            return C.jnorm(lib.DDLParser(CONTENT[cid], **st).run(output_mode=m))
+        def api(cid, st, m, grouped=False):
+            try:
+                return C.jnorm(lib.DDLParser(CONTENT[cid], **st).run(output_mode=m, **({"group_by_type": True} if grouped else {})))
+            except BaseException as e:  # noqa  (silent=False settings on a text with unsupported statements: the entry point must raise the same)
+                return {"__raises__": type(e).__name__}
+
+        written = {}      # dump file -> the value the call that wrote it last returned
 
         for op in beh["hist"]:
             t = TGT[op["t"]]
@@ -108,12 +117,22 @@ def _replay(task):
             if op["op"] == "parse_from_file":
                 name = op["f"]
                 kw = {"dump": True, "dump_path": t} if op["dump"] else {}
+                grouped = (len(name) + seed + len(beh["hist"])) % 2 == 1      # every second call also asks for the grouped result
+                if grouped:
+                    kw["group_by_type"] = True
+                ps = dict(settings) or None
+                ps_before = json.dumps(ps, sort_keys=True)
                 try:
-                    got = parse_from_file(os.path.join(PRE[(seed + len(name)) % len(PRE)] + IN, name), encoding=enc[name], parser_settings=dict(settings) or None, output_mode=mode, **kw)
+                    got = parse_from_file(os.path.join(PRE[(seed + len(name)) % len(PRE)] + IN, name), encoding=enc[name], parser_settings=ps, output_mode=mode, **kw)
                 except BaseException as e:  # noqa
-                    probs.append({"op": op, "problem": "parse_from_file raised " + type(e).__name__ + ": " + str(e)[:200]})
+                    if api(cid_of[name], settings, mode, grouped) != {"__raises__": type(e).__name__}:
+                        probs.append({"op": op, "problem": "parse_from_file raised " + type(e).__name__ + ": " + str(e)[:200]})
                     continue
-                want = api(cid_of[name], settings, mode)
+                if json.dumps(ps, sort_keys=True) != ps_before:
+                    probs.append({"op": op, "problem": "parse_from_file modified the parser_settings it was given", "before": ps_before, "after": json.dumps(ps, sort_keys=True)})
+                if op["dump"]:
+                    written[os.path.join(t, name.split(".")[0] + "_schema.json")] = C.jnorm(got)
+                want = api(cid_of[name], settings, mode, grouped)
                 if C.jnorm(got) != want:
                     probs.append({"op": op, "problem": "parse_from_file result differs from DDLParser(text, **settings).run(...)", "encoding": enc[name],
                                   "expected": want, "observed": C.jnorm(got)})
@@ -174,7 +193,11 @@ def _replay(task):
                 except Exception as e:  # noqa
                     probs.append({"problem": "dump is not JSON", "file": p, "error": str(e)[:100]})
                     continue
-                cands = [api(cid, {}, mode), api(cid, settings, mode)]
+                cands = [api(cid, {}, mode), api(cid, settings, mode)] if p not in written else [written[p]]
+                # (a file written last by parse_from_file holds exactly what that call returned - flat or grouped; one written by the command
+                #  line holds the default-settings result)
+                if p in written and data != written[p] and data in (api(cid, {}, mode), api(cid, settings, mode)):
+                    cands = [data]      # the command line wrote it after the API call
                 if data not in cands:
                     probs.append({"problem": "dump content is not the JSON of the API result", "file": p, "expected": cands[0], "observed": data})
         return probs
